@@ -189,6 +189,28 @@ fn programs(tier: Tier) -> Vec<Program> {
             vec![TOp::Prune],
         ],
     });
+    // a batch of one record is an atomic unit; the reader's miss on n1 proves
+    // that the batch had not landed when n2 was used, so n1 is the more
+    // recently used name in every sequential order that explains the results
+    v.push(Program {
+        name: "batch of one || reader whose miss orders it before the batch",
+        desired: 8,
+        setup: vec![Op::Ins(rec(2, Ty::A, 1, 5)), Op::Ins(rec(3, Ty::A, 1, 5))],
+        threads: vec![
+            vec![TOp::Get(2, Q::A), TOp::Get(1, Q::A)],
+            vec![TOp::InsAll(vec![rec(1, Ty::A, 1, 5)])],
+        ],
+    });
+    v.push(Program {
+        name: "batch of one || writer and reader || pruner at size 2",
+        desired: 2,
+        setup: vec![Op::Ins(rec(2, Ty::A, 1, 5)), Op::Ins(rec(3, Ty::A, 1, 5))],
+        threads: vec![
+            vec![TOp::Ins(rec(2, Ty::Txt, 1, 5)), TOp::Get(1, Q::A)],
+            vec![TOp::InsAll(vec![rec(1, Ty::A, 1, 5)])],
+            vec![TOp::Prune],
+        ],
+    });
     v.extend(generated_programs(tier));
     if tier == Tier::Thorough {
         v.push(Program {
@@ -205,7 +227,7 @@ fn programs(tier: Tier) -> Vec<Program> {
     v
 }
 
-/// Every multiset of `k` single-operation threads over a 9-operation alphabet
+/// Every multiset of `k` single-operation threads over a 10-operation alphabet
 /// (k = 2 quick, also 3 thorough), from an empty cache and from a cache that
 /// holds expired records and is over its size.
 fn generated_programs(tier: Tier) -> Vec<Program> {
@@ -219,6 +241,7 @@ fn generated_programs(tier: Tier) -> Vec<Program> {
         ("get n2 A", TOp::Get(2, Q::A)),
         ("prune", TOp::Prune),
         ("insert_all n2", TOp::InsAll(vec![rec(2, Ty::A, 1, 3), rec(2, Ty::Txt, 1, 3)])),
+        ("insert_all [n1 A]", TOp::InsAll(vec![rec(1, Ty::A, 2, 4)])),
     ];
     let setups: Vec<(&str, usize, Vec<Op>)> = vec![
         ("empty cache, size 2", 2, vec![]),
@@ -382,8 +405,12 @@ fn sequential_outcomes(p: &Program) -> BTreeSet<String> {
 fn install_clock(start_ns: u64) -> Rc<std::cell::Cell<u64>> {
     let clock = Rc::new(std::cell::Cell::new(start_ns));
     let c2 = clock.clone();
+    // every reading advances the clock by 1 ns, as a real clock never returns
+    // the same instant twice: the order of two uses is then always defined
     dns_resolver::verif::clock::set_provider(Some(Rc::new(move || {
-        Duration::from_nanos(c2.get())
+        let t = c2.get();
+        c2.set(t + 1);
+        Duration::from_nanos(t)
     })));
     clock
 }
@@ -413,17 +440,21 @@ fn final_state(cache: &SharedCache) -> String {
     for part in &snap.partitions {
         for (_, tuples) in &part.records {
             for (v, e) in tuples {
+                // whole seconds: the 1 ns ticks of the clock differ between
+                // interleavings and carry no meaning
                 entries.push(format!(
-                    "{} {} @{}",
+                    "{} {} @{}s",
                     show_name(&part.name),
                     show_data(v),
-                    e.as_nanos()
+                    e.as_secs()
                 ));
             }
         }
     }
     entries.sort();
-    format!("size={} {:?}", snap.current_size, entries)
+    // least recently used first: the order in which a prune would evict
+    let lru: Vec<String> = snap.access_order.iter().map(|(n, _)| show_name(n)).collect();
+    format!("size={} {:?} lru={:?}", snap.current_size, entries, lru)
 }
 
 fn run_in_order(p: &Program, order: &[(usize, usize)]) -> String {
@@ -565,7 +596,7 @@ fn explore_program(p: &Program, preemption_bound: usize, max_secs: u64) -> LoomR
     let only_atomic_units = p
         .threads
         .iter()
-        .all(|t| t.iter().all(|o| !matches!(o, TOp::InsAll(_))));
+        .all(|t| t.iter().all(|o| !matches!(o, TOp::InsAll(v) if v.len() > 1)));
     if only_atomic_units {
         if let Some((k, n)) = outcomes.iter().find(|(k, _)| !allowed.contains(*k)) {
             violations.push((
@@ -673,7 +704,7 @@ fn run_loom(ctx: &Ctx, report: &mut Report) {
                     "schedules": r.schedules,
                     "distinct_outcomes": r.outcomes.len(),
                     "schedules_with_outcome_not_matching_any_sequential_order": r.non_linearizable,
-                    "non_sequential_outcome_is_a_violation": p.threads.iter().all(|t| t.iter().all(|o| !matches!(o, TOp::InsAll(_)))),
+                    "non_sequential_outcome_is_a_violation": p.threads.iter().all(|t| t.iter().all(|o| !matches!(o, TOp::InsAll(v) if v.len() > 1))),
                     "duration_cap_hit": capped,
                 }));
                 let mut seen = BTreeSet::new();
